@@ -422,6 +422,11 @@ type replayDoc struct {
 	Note        string    `json:"note,omitempty"`
 	Violation   Violation `json:"violation"`
 	Trace       *Trace    `json:"trace"`
+	// Prelude: concrete traces the same worker process had executed before this
+	// one, kept (minimised) only when the violation depends on state the library
+	// keeps across calls for the lifetime of the process; replay executes them
+	// first, in order, in the same process.
+	Prelude []*Trace `json:"prelude,omitempty"`
 }
 
 func replayFile(path string) int {
@@ -440,7 +445,12 @@ func replayFile(path string) int {
 		fmt.Fprintln(os.Stderr, "replay: unknown property or empty trace")
 		return 2
 	}
-	fmt.Printf("replay: property=%s world=%s run_seed=%d ops=%d\n", doc.Property, doc.Trace.World, doc.RunSeed, len(doc.Trace.Ops))
+	fmt.Printf("replay: property=%s world=%s run_seed=%d ops=%d prelude=%d\n", doc.Property, doc.Trace.World, doc.RunSeed, len(doc.Trace.Ops), len(doc.Prelude))
+	for _, pt := range doc.Prelude {
+		if pt != nil {
+			_ = execTrace(ps, pt)
+		}
+	}
 	res := execTrace(ps, doc.Trace)
 	if res.Fatal != "" {
 		fmt.Println("replay: harness trouble:", res.Fatal)
@@ -622,8 +632,16 @@ func drive(ps *propSpec, tier string, seed uint64, evidencePath, replayDir, find
 			doc.Note = "the minimised trace did not reproduce in a fresh process; this is the original trace"
 			writeJSON(path, doc)
 			if !reproducesFresh(path) {
-				doc.Note += "; the original trace did not reproduce in a fresh process either (harness determinism bug to investigate) - the violation was observed in-process on real code"
-				writeJSON(path, doc)
+				// state that outlives a run (a process-wide cache or free list in the library): replay the
+				// runs this worker had executed before, then shrink that prelude
+				if !ps.Isolated && withPrelude(ps, tier, seed, nworkers, fv, &doc, path) {
+					doc.Note = fmt.Sprintf("the violation depends on state the library keeps across calls for the lifetime of the process: the trace alone does not reproduce it, the trace after %d earlier run(s) of the same worker does (prelude, minimised)", len(doc.Prelude))
+					writeJSON(path, doc)
+				} else {
+					doc.Prelude = nil
+					doc.Note += "; the original trace did not reproduce in a fresh process either (harness determinism bug to investigate) - the violation was observed in-process on real code"
+					writeJSON(path, doc)
+				}
 			}
 		}
 		fmt.Printf("violation: property=%s oracle=%s run=%d run_seed=%d ops=%d->%d\n  %s\n", fv.V.Prop, fv.V.Oracle, fv.Run, fv.Seed, len(fv.Trace.Ops), len(doc.Trace.Ops), doc.Message)
@@ -743,6 +761,59 @@ func loadSites(path string) {
 
 // evidenceExtra lets a property add measured keys to its coverage object.
 var evidenceExtra = map[string]func(total *workerOut) map[string]any{}
+
+// withPrelude rebuilds the runs the worker that found fv had executed before
+// it (indices w, w+n, ... below fv.Run), checks that the violation reproduces in
+// a fresh process after them, and shrinks the list: shortest suffix first, then
+// single removals, at most 60 fresh executions.
+func withPrelude(ps *propSpec, tier string, seed uint64, nworkers int, fv foundViolation, doc *replayDoc, path string) bool {
+	if nworkers < 1 {
+		nworkers = 1
+	}
+	var pre []*Trace
+	for idx := fv.Run % nworkers; idx < fv.Run; idx += nworkers {
+		w := worldFor(ps, idx)
+		rs := runSeed(seed, ps.ID, idx)
+		tr := w.Gen(ps.ID, tier, idx, NewRng(rs))
+		tr.Seed = rs
+		pre = append(pre, tr)
+	}
+	if len(pre) == 0 {
+		return false
+	}
+	if len(pre) > 1500 {
+		pre = pre[len(pre)-1500:] // keep the file bounded; older state is given up on
+	}
+	try := func(l []*Trace) bool {
+		doc.Prelude = l
+		writeJSON(path, *doc)
+		return reproducesFresh(path)
+	}
+	if !try(pre) {
+		return false
+	}
+	execs := 1
+	// the shortest suffix that still does it
+	for k := 1; k < len(pre) && execs < 30; k *= 2 {
+		execs++
+		if try(pre[len(pre)-k:]) {
+			pre = pre[len(pre)-k:]
+			break
+		}
+	}
+	// drop single runs
+	for i := 0; i < len(pre) && len(pre) > 1 && execs < 60; {
+		cand := append(append([]*Trace{}, pre[:i]...), pre[i+1:]...)
+		execs++
+		if try(cand) {
+			pre = cand
+		} else {
+			i++
+		}
+	}
+	doc.Prelude = pre
+	return true
+}
 
 func reproducesFresh(path string) bool {
 	cmd := exec.Command(os.Args[0], "-replay", path)
